@@ -52,3 +52,20 @@ def class_entries(entries, enabled):
 
 def class_regexes(entry):
     return [re.compile(r) for r in entry["match"]["nonempty_result_preds"]]
+
+
+def match_program(entry, source, enabled):
+    """program-identified finding: a syntactic pattern of the SOURCE program plus required traits; a violation on such a
+    program is attributed to the finding as a whole (documented masking: other violations in these programs are not
+    told apart)"""
+    from . import astutil
+
+    m = entry["match"]
+    if m.get("type") != "program":
+        return False
+    if not set(m.get("needs_traits", [])) <= enabled_set(enabled):
+        return False
+    try:
+        return bool(astutil.PROGRAM_PATTERNS[m["pattern"]](astutil.parse(source)))
+    except RuntimeError:
+        return False
